@@ -394,6 +394,19 @@ def _confirm_violation(mod, prop, verif_seed, known, r, vj):
                         str(path), "--quiet"], env=env, capture_output=True, text=True,
                        timeout=600, cwd=str(VERIF_DIR))
     if p.returncode != 1 or "match=True" not in p.stdout:
+        # The code under test may itself be non-deterministic (e.g. iterating a set of
+        # futures): then no replay can be exact.  The violation is still real if it keeps
+        # showing when the same explicit case is executed again in this process.
+        again = [any(x.key() == v.key() for x in run_case(mod, case).violations) for _ in range(3)]
+        if all(again):
+            body = json.loads(Path(path).read_text())
+            body["nondeterministic"] = ("the fresh-interpreter replay did not reproduce the same "
+                                        "digest; the violation reproduced 4/4 times in-process")
+            Path(path).write_text(json.dumps(body, indent=1, sort_keys=True))
+            print(f"WARNING property={prop}: replay {path} is not exact — the code under test "
+                  f"behaves differently in a fresh interpreter (non-deterministic); the "
+                  f"violation reproduced 4/4 times in-process")
+            return ("ok", path, vmin, size0, len(json.dumps(case)), execs)
         return ("problem", f"replay {path} did not reproduce in a fresh process "
                            f"(rc={p.returncode}): {p.stdout[-300:]} {p.stderr[-300:]}")
     return ("ok", path, vmin, size0, len(json.dumps(case)), execs)
@@ -423,6 +436,7 @@ def _main_batch(mod, prop, verif_seed, args, t_start) -> int:
     known = load_known()
     known_hits: dict[str, dict] = {}
     unknown: dict[str, list[tuple[dict, dict]]] = {}
+    sig_counts: dict[str, int] = {}
     n_violating = 0
     for r in records:
         if not r["violations"]:
@@ -434,6 +448,7 @@ def _main_batch(mod, prop, verif_seed, args, t_start) -> int:
                 known_hits.setdefault(k.get("id", k.get("description", "?")), k)
             else:
                 sig = json.dumps([v["oracle"], v["signature"]], sort_keys=True)
+                sig_counts[sig] = sig_counts.get(sig, 0) + 1
                 unknown.setdefault(sig, [])
                 if len(unknown[sig]) < 3:
                     unknown[sig].append((r, v))
@@ -442,6 +457,7 @@ def _main_batch(mod, prop, verif_seed, args, t_start) -> int:
         print(f"KNOWN-FINDING: property={prop} {k.get('description', '')}")
     reported = []
     seen_min: set[str] = set()
+    unconfirmed: list[str] = []
     for sig, cands in list(unknown.items())[:4]:
         problems = []
         for r, vj in cands:
@@ -465,8 +481,35 @@ def _main_batch(mod, prop, verif_seed, args, t_start) -> int:
             rc = 1
             break
         else:
-            raise HarnessError(f"violation {sig} could not be confirmed in {len(cands)} "
+            if sig_counts.get(sig, 0) >= 3:
+                # The same oracle failed in several independent runs but no single run
+                # replays exactly: the code under test is itself non-deterministic (e.g. it
+                # iterates a set of futures).  Report it with the original, unminimised case.
+                r, vj = cands[0]
+                v = Violation(vj["oracle"], vj["message"], vj["signature"])
+                out = Outcome(digest="(not reproducible)", log_head=[])
+                path = write_replay(mod, r["case"], out, v, verif_seed, r["index"],
+                                    len(json.dumps(r["case"])))
+                body = json.loads(Path(path).read_text())
+                body["nondeterministic"] = (
+                    f"observed in {sig_counts[sig]} runs of this batch, but no run replays "
+                    f"exactly: {problems}")
+                Path(path).write_text(json.dumps(body, indent=1, sort_keys=True))
+                print(f"WARNING property={prop}: the violation below was observed in "
+                      f"{sig_counts[sig]} runs but does not replay exactly — the code under test "
+                      f"behaves differently from one execution to the next")
+                print(f"  {v.oracle}: {v.message}")
+                print(f"VIOLATION property={prop} replay={path}")
+                reported.append(str(path))
+                rc = 1
+                continue
+            unconfirmed.append(f"violation {sig} could not be confirmed in {len(cands)} "
                                f"attempts: {problems}")
+    if unconfirmed:
+        if rc == 0:
+            raise HarnessError("; ".join(unconfirmed))
+        for u in unconfirmed:
+            print(f"WARNING property={prop}: {u[:600]}")
 
     # ---- determinism self-test: same seeds again, other pool size / chunking, and
     # a sample in a fresh interpreter under another PYTHONHASHSEED
